@@ -263,19 +263,36 @@ def run_case(spec, work):
         # few pairs, hundreds of genes: pairs with 256 / 258 / 512 markers
         # in one direction and none or a handful in the other (per-pair
         # gene counts beyond one byte while the pair count is tiny)
-        d = int(rng.integers(1, 4))
-        k = int(rng.integers(3, 7))
-        model = gen.build_from_shape(gen.random_forest(rng, d, k), d, rng)
+        # two parents hold exactly one pair each (a wrapped count cannot be
+        # made up for by genes chosen for sibling pairs); the root holds
+        # the other eight
+        forest = (((), ()), ((), ()), ((),))
+        d, k = 2, 5
+        model = gen.build_from_shape(forest, d, rng)
         n_genes = int(rng.integers(530, 600))
         genes = gen.gene_names(rng, n_genes)
         n_pairs = k * (k - 1) // 2
         up = np.zeros((n_pairs, n_genes), dtype=bool)
         down = np.zeros((n_pairs, n_genes), dtype=bool)
-        for row in range(n_pairs):
+        top_level = model.hierarchy[0]
+        lone = [tuple(sorted(model.leaves_under(top_level, nd)))
+                for nd in model.nodes[top_level]
+                if len(model.leaves_under(top_level, nd)) == 2]
+        assert len(lone) == 2
+        cyc = 0
+        for row, pr in enumerate(itertools.combinations(
+                sorted(model.leaves), 2)):
             perm = rng.permutation(n_genes)
-            many, few = [(256, 0), (258, 4), (512, 0), (257, 3),
-                         (40, 30)][row % 5]
-            a, b = (up, down) if (row // 5 + row) % 2 == 0 else (down, up)
+            if pr == lone[0]:
+                many, few = 256, 0
+            elif pr == lone[1]:
+                many, few = 258, 4
+            else:
+                many, few = [(512, 0), (257, 3), (40, 30), (256, 0),
+                             (258, 4)][cyc % 5]
+                cyc += 1
+            a, b = (up, down) if (spec['seed'] + row) % 2 == 0 \
+                else (down, up)
             a[row, perm[:many]] = True
             b[row, perm[many:many + few]] = True
         klass = 'many-markers-one-way'
